@@ -72,14 +72,15 @@ func (s *Struct) Assign(gen Generator, ctx *MethodContext, assignTo *AssignTo, s
 		targetFieldPath := errPath.Field(targetField.Name())
 
 		if fieldMapping.Function == nil {
-			usedSourceID = true
 			nextID, nextSource, mapStmt, lift, skip, err := mapField(gen, ctx, targetField, sourceID, source, target, additionalFieldSources, targetFieldPath)
 			if skip {
+				// a field skipped by ignoreMissing does not use the source
 				continue
 			}
 			if err != nil {
 				return nil, err
 			}
+			usedSourceID = true
 			stmt = append(stmt, mapStmt...)
 
 			fieldStmt, err := gen.Assign(ctx, AssignOf(assignTo.Stmt.Clone().Dot(targetField.Name())), nextID, nextSource, targetFieldType, targetFieldPath)
